@@ -10,7 +10,14 @@ import (
 	"golang.org/x/tools/go/ssa/ssautil"
 )
 
-const repoDir = "/repo"
+// repoDir is /repo; VCHECK_REPO (debug only, never set by a registered command) points the check at
+// another checkout, e.g. a scratch worktree while /repo is busy.
+var repoDir = func() string {
+	if d := os.Getenv("VCHECK_REPO"); d != "" {
+		return d
+	}
+	return "/repo"
+}()
 const modPath = "github.com/bilibili/gengine"
 
 func goEnv() []string {
